@@ -856,3 +856,7 @@ def run(chk: Check) -> None:
     d9_whole_file_writes_truncate(chk)
     d10_offset_sign_applies_to_the_whole_delta(chk)
     d11_parser_per_file(chk)
+    from rules.shared import single_consumption_rule
+    single_consumption_rule(
+        chk, "C19-D12", ("yamlpath/commands/eyaml_rotate_keys.py",
+                         "yamlpath/eyaml/eyamlprocessor.py"), 10)
